@@ -434,6 +434,9 @@ fn make_pair(app: &mut App, admin: &Addr, pair_type: PairType, fees: PoolFee) ->
     .ok()
 }
 fn provide2(app: &mut App, who: &Addr, pair: &Addr, d: [&str; 2], a: [u128; 2], tol: Option<u128>) -> Outcome<()> {
+    // the order in which the caller lists the two assets must not matter: list them in reverse of
+    // the pair's asset_infos for every other amount pair (a deterministic function of the inputs)
+    let (d, a) = if (a[0] ^ a[1]) & 1 == 1 { ([d[1], d[0]], [a[1], a[0]]) } else { (d, a) };
     let mut funds = vec![coin(a[0], d[0]), coin(a[1], d[1])];
     funds.retain(|c| !c.amount.is_zero());
     guarded(|| {
@@ -716,7 +719,12 @@ fn x_trio_deposit(mon: &mut Monitor, a: &[u128], tol: Option<u128>, line_amount:
                 who.clone(),
                 trio.clone(),
                 &t::ExecuteMsg::ProvideLiquidity {
-                    assets: [asset("ua", am[0]), asset("ub", am[1]), asset("uc", am[2])],
+                    // listing order rotates with the amounts: it must not matter
+                    assets: {
+                        let r = ((am[0] ^ am[1] ^ am[2]) % 3) as usize;
+                        let l = [asset("ua", am[0]), asset("ub", am[1]), asset("uc", am[2])];
+                        [l[r].clone(), l[(r + 1) % 3].clone(), l[(r + 2) % 3].clone()]
+                    },
                     slippage_tolerance: tol.map(Decimal::raw),
                     receiver: None,
                 },
